@@ -1638,7 +1638,7 @@ def _equality_flexstrain(is_sparse: bool, newton: bool):
       if wp.static(is_sparse and newton):
         jgid = wp.atomic_add(efc_jtdaj_nblock_out, worldid, 1)
         efc_jtdaj_adr_out[worldid, jgid] = efcid
-        efc_jtdaj_nrow_out[worldid, jgid] = 6
+        efc_jtdaj_nrow_out[worldid, jgid] = 1
 
       # Read eigenvector from stiffness data
       eigvec_base = k_base + 1 + eig * ndof_cell
